@@ -15,6 +15,8 @@
 #include <thread>
 #include <chrono>
 #include <atomic>
+#include <dlfcn.h>
+#include <event2/event.h>
 
 using namespace uscxml;
 
@@ -34,6 +36,7 @@ void traceHook(const char* what, const char* uuid) { logLine(what, uuid); }
 
 struct Hook { int ms; std::atomic<int> left; };
 std::map<std::string, Hook*> g_hooks;
+std::atomic<int> g_afterAddMs(0), g_afterAddLeft(0);
 void scheduleHook(const char* point) {
 	auto it = g_hooks.find(point);
 	if (it == g_hooks.end()) return;
@@ -58,6 +61,7 @@ std::string dqOne(const std::string& script, const std::string& hooks) {
 			hk->ms = atoi(rhs.substr(0, col).c_str());
 			hk->left = col == std::string::npos ? 1000000 : atoi(rhs.substr(col + 1).c_str());
 			g_hooks[h.substr(0, eq)] = hk;
+			if (h.substr(0, eq) == "libevent.after_add") { g_afterAddMs = hk->ms; g_afterAddLeft = (int)hk->left; }
 		}
 		uscxml_verif_schedule_hook = scheduleHook;
 	}
@@ -89,6 +93,16 @@ std::string dqOne(const std::string& script, const std::string& hooks) {
 	for (size_t i = 0; i < g_log.size(); i++) { if (i) out += " "; out += g_log[i]; }
 	return out;
 }
+}
+
+// schedule point inside libevent: the thread that armed a short timer is held up right after event_add() returned
+// (the executable's definition takes precedence over libevent's for the calls the library makes)
+extern "C" int event_add(struct event* ev, const struct timeval* tv) {
+	static int (*real)(struct event*, const struct timeval*) = (int (*)(struct event*, const struct timeval*))dlsym(RTLD_NEXT, "event_add");
+	int rc = real(ev, tv);
+	if (g_afterAddMs > 0 && tv != NULL && tv->tv_sec == 0 && tv->tv_usec <= 30000 && g_afterAddLeft.fetch_sub(1) > 0)
+		std::this_thread::sleep_for(std::chrono::milliseconds((int)g_afterAddMs));
+	return rc;
 }
 
 int cmd_dq(int argc, char** argv) {
